@@ -10,6 +10,7 @@ import (
 	"os"
 	"time"
 
+	"github.com/DataDog/datadog-traceroute/packets"
 	"github.com/DataDog/datadog-traceroute/traceroute"
 )
 
@@ -22,7 +23,17 @@ func main() {
 	timeout := flag.Int("timeout", 1000, "")
 	q := flag.Int("q", 1, "")
 	e2e := flag.Int("e2e", 0, "")
+	history := flag.Int("history", 0, "")
 	flag.Parse()
+	if *history > 0 {
+		// a long-lived process: earlier runs have used up packet identifiers, the next run's range starts `history` below the
+		// 16-bit wrap (through the exported allocator only)
+		for i := 0; i < 1<<17; i++ {
+			if packets.AllocPacketID(1)+1 == uint16(65536-*history) {
+				break
+			}
+		}
+	}
 	tr := traceroute.NewTraceroute()
 	res, err := tr.RunTraceroute(context.Background(), traceroute.TracerouteParams{Hostname: flag.Arg(0), Port: *port, Protocol: *proto, MinTTL: *min, MaxTTL: *max, Delay: 50,
 		Timeout: time.Duration(*timeout) * time.Millisecond, TCPMethod: traceroute.TCPMethod(*method), TracerouteQueries: *q, E2eQueries: *e2e})
